@@ -240,7 +240,7 @@ def run(tier):
     # 1. exhaustive sanity of the specification
     cfgs = ["MC_ConsensusRules_ex.cfg"] if tier == "quick" else ["MC_ConsensusRules_ex.cfg", "MC_ConsensusRules_ex3.cfg"]
     for cfg in cfgs:
-        res = V.tlc(PID, "MC_ConsensusRules", cfg, workers=8, timeout=1500)
+        res = V.tlc(PID, "MC_ConsensusRules", cfg, workers=4, timeout=1800, xmx="3g")
         if res["violated"]:
             c.violation("model/" + res["violated"], "ConsensusRules.tla violates %s in %s" % (res["violated"], cfg),
                         {"kind": "model", "cfg": cfg, "tlc_tail": res["out"][-3000:]})
